@@ -429,6 +429,14 @@ def run(plan, ch, want_log=False):
             viol.append(("C10" if ginfo is not None else "C01", "task_failed", (e.task, repr(e.exc)[:200]), {}))
     except Violation as v:
         viol.append((v.prop, v.cls, v.detail, v.sig))
+        if v.cls == "wait_with_nothing_outstanding":
+            # nothing is in flight and the controller waits: tasks whose inputs all exist but which were never sent to a worker
+            ready = sorted(t for t in job.tasks if t not in b.dispatched and all(ds in b.produced for ds in b.inputs[t]))
+            if ready:
+                viol.append(("C02", "task_never_dispatched", ready, dict(inverted=bool(b.inverted_tasks), swapped=b.swapped)))
+            undelivered = [repr(d) for d in job.ext_outputs if d not in b.delivered_payload]
+            if undelivered and not ready and set(b.finished) == set(job.tasks):
+                viol.append(("C01", "requested_output_never_fetched", undelivered[:4], {}))
         if ginfo is not None and ginfo["expect_failure"] and v.cls == "wait_with_nothing_outstanding":
             # a generator that did not yield what its node declares was not reported: the controller waits for ever for the missing output
             viol.append(("C10", "count_mismatch_not_reported", (ginfo["failed"], v.detail), {}))
